@@ -39,7 +39,14 @@ func c13ViewWrapsArgument(c *Ctx) {
 	isMapper := func(t types.Type) bool { return namedPath(t) == modPath+"/private/pkg/storage.Mapper" }
 	n := 0
 	for _, sf := range p.SSAFuncsOf([]*packages.Package{pk}) {
-		if sf.Signature.Recv() != nil || sf.Object() == nil || !sf.Object().Exported() || len(sf.Params) < 2 || !isBucketIface(sf.Params[0].Type()) {
+		if sf.Signature.Recv() != nil || sf.Object() == nil || !sf.Object().Exported() || len(sf.Params) == 0 {
+			continue
+		}
+		if isBucketSlice(sf.Params[0].Type(), isBucketIface) {
+			n += c13UnionWrapsArguments(c, rule, sf, isBucketIface)
+			continue
+		}
+		if len(sf.Params) < 2 || !isBucketIface(sf.Params[0].Type()) {
 			continue
 		}
 		// variadic mappers
@@ -178,4 +185,62 @@ func chainInnerFirst(v ssa.Value, mappers *ssa.Parameter, seen map[ssa.Value]boo
 		return !innerIsOwn && chainInnerFirst(elems[1], mappers, seen)
 	}
 	return false
+}
+
+func isBucketSlice(t types.Type, isBucketIface func(types.Type) bool) bool {
+	sl, ok := t.Underlying().(*types.Slice)
+	return ok && isBucketIface(sl.Elem())
+}
+
+// c13UnionWrapsArguments: the union/overlay constructors hand the list they were given to the internal constructor.
+// A member that is itself a union may only be replaced by its own members when the two agree on what a path present
+// in two members means (both unions, or both overlays): splicing the members of an overlay into a union turns "the
+// first one wins" into "reported as a duplicate", and the other way round hides a duplicate the inner union reports.
+// Accepted: the own parameter as is; or a list built by appends where a member list dug out of an element is appended
+// only under a test of a boolean member of that same element.
+func c13UnionWrapsArguments(c *Ctx, rule string, sf *ssa.Function, isBucketIface func(types.Type) bool) int {
+	n := 0
+	for _, call := range callsIn(sf) {
+		callee := call.Call.StaticCallee()
+		if callee == nil || callee.Pkg != sf.Pkg || callee.Object() == nil || callee.Object().Exported() {
+			continue
+		}
+		for i, a := range call.Call.Args {
+			if !isBucketSlice(a.Type(), isBucketIface) {
+				continue
+			}
+			n++
+			var bad []string
+			if stripConv(a) != ssa.Value(sf.Params[0]) {
+				// every load of a bucket-list member of some other value that feeds the list
+				sliceBack(a, func(x ssa.Value) bool {
+					u, ok := x.(*ssa.UnOp)
+					if !ok || u.Op != token.MUL || !isBucketSlice(u.Type(), isBucketIface) {
+						return true
+					}
+					fa, ok := u.X.(*ssa.FieldAddr)
+					if !ok {
+						return true
+					}
+					guarded := false
+					for _, ge := range guardingEdges(u.Block()) {
+						sliceBack(ge.If.Cond, func(y ssa.Value) bool {
+							if fb, ok := y.(*ssa.FieldAddr); ok && fb.X == fa.X {
+								if pt, ok := fb.Type().Underlying().(*types.Pointer); ok && isBoolType(pt.Elem()) {
+									guarded = true
+								}
+							}
+							return true
+						})
+					}
+					if !guarded {
+						bad = append(bad, "members of a nested "+typeShort(fa.X.Type())+" spliced in without comparing its mode")
+					}
+					return true
+				})
+			}
+			c.Ob(rule, fmt.Sprintf("%s/%s#%d/members", sf.Name(), callee.Name(), i), call.Pos(), len(bad) == 0, true, "the list handed to %s is %s's own list, or nested members are spliced in only under a test of the nested bucket's mode: %v", callee.Name(), sf.Name(), uniq(bad))
+		}
+	}
+	return n
 }
